@@ -11,12 +11,11 @@ from __future__ import annotations
 
 import ast
 
-from ..inline import Inliner
 from ..loader import AnalysisError, Tree, ancestors, unparse, walk_function
 from ..poly import RF, D, equal, sqrt, sym
 from ..report import Check
 from ..terms import TermEval
-from .c04 import check_frame, check_prov
+from .c04 import check_frame, check_prov, recursion_worker
 
 PID = "C07"
 ADAPTER = "ampform.kinematics::HelicityAdapter.create_expressions"
@@ -40,11 +39,17 @@ def _merged_calls(tree: Tree, fn, rd, expr: ast.AST, seen: set) -> list[ast.Call
             elif d.kind in {"store", "aug"}:
                 # a weak update of the mapping: what was merged before it stays merged
                 out += _merged_calls_of_update(tree, fn, rd, d, seen)
+            elif d.kind in {"for", "comp"} and d.index is None and isinstance(getattr(d.node, "iter", None), (ast.Tuple, ast.List)):
+                # `for part in (f(..), g(..)): M.update(part)`: each element of the literal sequence in turn
+                for elt in d.node.iter.elts:
+                    out += _merged_calls(tree, fn, rd, elt, seen)
         return out
     if isinstance(expr, ast.Call):
         callee = tree.callee(expr, fn)
         if callee and callee in tree.funcs:
             return [expr]
+        if _callees_of_loop_variable(tree, fn, rd, expr):
+            return [expr]  # `for producer in (f, g): M.update(producer(...))`
         f = expr.func
         if isinstance(f, ast.Name) and f.id in {"dict", "OrderedDict"} and len(expr.args) == 1:
             return _merged_calls(tree, fn, rd, expr.args[0], seen)
@@ -61,6 +66,35 @@ def _merged_calls(tree: Tree, fn, rd, expr: ast.AST, seen: set) -> list[ast.Call
     if isinstance(expr, ast.IfExp):
         return _merged_calls(tree, fn, rd, expr.body, seen) + _merged_calls(tree, fn, rd, expr.orelse, seen)
     return out
+
+
+def _callees_of_loop_variable(tree: Tree, fn, rd, call: ast.Call) -> list[str]:
+    """The package functions a call `f(...)` may reach when `f` is the variable of a loop / comprehension over a literal
+    tuple or list of functions."""
+    f = call.func
+    if not isinstance(f, ast.Name):
+        return []
+    out: list[str] = []
+    defs = rd.reaching(f)
+    if not defs:
+        return []
+    for d in defs:
+        it = d.node.iter if d.kind in {"for", "comp"} and hasattr(d.node, "iter") else None
+        if it is None or d.index is not None or not isinstance(it, (ast.Tuple, ast.List)):
+            return []
+        for elt in it.elts:
+            q = tree.resolve(fn.module, elt, fn)
+            if q is None or q not in tree.funcs:
+                return []
+            out.append(q)
+    return out
+
+
+def _callees(tree: Tree, fn, rd, call: ast.Call) -> list[str]:
+    q = tree.callee(call, fn)
+    if q and q in tree.funcs:
+        return [q]
+    return _callees_of_loop_variable(tree, fn, rd, call)
 
 
 def _merged_calls_of_update(tree: Tree, fn, rd, d, seen: set) -> list[ast.Call]:
@@ -108,10 +142,10 @@ def producers_of_adapter(ctx: Check, tree: Tree) -> list[str]:
                 roots.append(node.value)
         calls = {id(c): c for r in roots for c in _merged_calls(tree, fn, rd, r, set())}
         for call in sorted(calls.values(), key=lambda c: (c.lineno, c.col_offset)):
-            callee = tree.callee(call, fn)
-            if callee not in out:
-                out.append(callee)
-            work.append(callee)
+            for callee in _callees(tree, fn, rd, call):
+                if callee not in out:
+                    out.append(callee)
+                work.append(callee)
     # a nested function of a producer is analysed together with it (check_prov)
     out = [q for q in out if not any(q.startswith(o + ".") for o in out)]
     fn = tree.func(ADAPTER)
@@ -124,24 +158,66 @@ def producers_of_adapter(ctx: Check, tree: Tree) -> list[str]:
     return out
 
 
+def _slice_triple(v):
+    """(start, stop, step) of a ``slice(...)`` value with the defaults made explicit, or None."""
+    from ..symex import is_const
+
+    if not (isinstance(v, tuple) and v and v[0] == "call" and v[1] == ("builtin", "slice") and not v[3] and 1 <= len(v[2]) <= 3):
+        return None
+    if not all(is_const(a) and (a[1] is None or (isinstance(a[1], int) and not isinstance(a[1], bool))) for a in v[2]):
+        return None
+    vals = [a[1] for a in v[2]]
+    start, stop, step = (None, vals[0], None) if len(vals) == 1 else (vals + [None])[:3]
+    return (start or 0, stop, 1 if step is None else step)
+
+
+def _field_of_self(v, fn, field: str) -> bool:
+    """``self.<field>`` or ``self.args[0]`` (the one field of these expression classes)."""
+    me = ("param", fn.params[0]) if fn.params else None
+    return v == ("attr", me, field) or v == ("sub", ("attr", me, "args"), ("const", 0))
+
+
 def check_slices(ctx: Check, tree: Tree) -> None:
+    """Energy / FourMomentumX,Y,Z / ThreeMomentum(p) == ArraySlice(p, (all events, component)): ``evaluate`` is run
+    symbolically; the component is read from the VALUE of the index pair (temporaries, keyword arguments, another
+    spelling of the same slice do not matter)."""
+    from ..symex import alternatives, is_const
+    from .c04 import Unreadable, _is_call, _pos_args, _show, helper_value
+
+    want_index = {"0": 0, "1": 1, "2": 2, "3": 3, "slice(1, None)": (1, None, 1)}
     for cls_name, want in SLICES.items():
-        mod = LOR
-        cls = tree.cls(f"{mod}::{cls_name}")
+        cls = tree.cls(f"{LOR}::{cls_name}")
         ev = cls.methods.get("evaluate")
         if ev is None:
             raise AnalysisError(f"vanished anchor: {cls_name}.evaluate")
-        inl = Inliner(ev.node)
-        ret = next(r for r in walk_function(ev.node) if isinstance(r, ast.Return))
-        val = inl.expr(ret.value)
-        ok = False
-        got = unparse(val)
-        if isinstance(val, ast.Call) and unparse(val.func) == "ArraySlice" and len(val.args) == 2:
-            base, idx = val.args
-            if unparse(base) in {"self.momentum", "self.args[0]"} and isinstance(idx, ast.Tuple) and len(idx.elts) == 2:
-                ok = unparse(idx.elts[0]) == "slice(None)" and unparse(idx.elts[1]) == want
-        ctx.verdict(ok, "R-TERM", f"{cls.qual}.evaluate::component", tree.loc(ev.node),
-                    f"{cls_name}(p) == p[:, {want}]", None if ok else f"evaluate returns {got[:80]}")
+        _, value = helper_value(tree, ev.qual)
+        alts = alternatives(value)
+        if len(alts) != 1:
+            raise AnalysisError(f"{ev.qual}: the value depends on conditions: `{_show(value)}`")
+        val = alts[0][1]
+        if not _is_call(val, "ArraySlice"):
+            raise AnalysisError(f"{ev.qual}: returns `{_show(val)}`, not an ArraySlice(...): cannot read the component")
+        try:
+            base, idx = _pos_args(val, ("parent", "indices"))[:2]
+        except (Unreadable, ValueError) as exc:
+            raise AnalysisError(f"{ev.qual}: cannot read the arguments of `{_show(val)}`") from exc
+        if not _field_of_self(base, ev, "momentum"):
+            raise AnalysisError(f"{ev.qual}: slices `{_show(base)}`, which is not the momentum the expression was built from")
+        if idx[0] != "tuple" or len(idx[1]) != 2:
+            raise AnalysisError(f"{ev.qual}: the index `{_show(idx)}` is not a pair (events, component)")
+        events, comp = idx[1]
+        problems = []
+        if _slice_triple(events) != (0, None, 1):
+            if _slice_triple(events) is None and not is_const(events, int):
+                raise AnalysisError(f"{ev.qual}: cannot read the event index `{_show(events)}`")
+            problems.append(f"the event axis is indexed with `{_show(events)}`, not with all events")
+        got = comp[1] if is_const(comp, int) else _slice_triple(comp)
+        if got is None:
+            raise AnalysisError(f"{ev.qual}: cannot read the component index `{_show(comp)}`")
+        if got != want_index[want]:
+            problems.append(f"component {got}, not {want}")
+        ctx.verdict(not problems, "R-TERM", f"{cls.qual}.evaluate::component", tree.loc(ev.node),
+                    f"{cls_name}(p) == p[:, {want}]", None if not problems else f"evaluate returns {_show(val)}: {'; '.join(problems)}")
 
 
 def check_definitions(ctx: Check, tree: Tree) -> None:
@@ -152,8 +228,14 @@ def check_definitions(ctx: Check, tree: Tree) -> None:
     def C(name, *args, mod=LOR):
         return te.construct(f"{mod}::{name}", list(args), {})
 
+    def known(got, what):
+        """P1: a definition that does not evaluate to a term cannot be compared - that is "cannot decide", not "wrong"."""
+        if not isinstance(got, RF):
+            raise AnalysisError(f"{what}: evaluate() does not reduce to a term the rule can compare ({repr(got)[:120]})")
+        return got
+
     def unfolded(name, mod=LOR):
-        return te.unfold_atom(te.single_atom(C(name, p, mod=mod)))
+        return known(te.unfold_atom(te.single_atom(C(name, p, mod=mod))), f"{name}.evaluate")
 
     norm = C("EuclideanNorm", C("ThreeMomentum", p))
     # InvariantMass
@@ -165,16 +247,35 @@ def check_definitions(ctx: Check, tree: Tree) -> None:
                 None if ok else repr(got)[:200])
     # EuclideanNorm / Squared
     v = sym("v")
-    got = te.unfold_atom(te.single_atom(C("EuclideanNorm", v)))
+    got = known(te.unfold_atom(te.single_atom(C("EuclideanNorm", v))), "EuclideanNorm.evaluate")
     ok = isinstance(got, RF) and equal(got, sqrt(C("EuclideanNormSquared", v)))
     cls = tree.cls(f"{LOR}::EuclideanNorm")
     ctx.verdict(ok, "R-TERM", f"{cls.qual}.evaluate", tree.loc(cls.node), "EuclideanNorm(v) == sqrt(EuclideanNormSquared(v))")
     cls = tree.cls(f"{LOR}::EuclideanNormSquared")
     ev = cls.methods["evaluate"]
-    ret = next(r for r in walk_function(ev.node) if isinstance(r, ast.Return))
-    txt = unparse(ret.value).replace(" ", "")
-    ok = txt in {"ArrayAxisSum(self.vector**2,axis=1)", "ArrayAxisSum(self.vector**2,1)"}
-    ctx.verdict(ok, "R-TERM", f"{cls.qual}.evaluate", tree.loc(ev.node), "EuclideanNormSquared(v) == sum(v**2, axis=1)", None if ok else txt)
+    from ..symex import alternatives, as_number
+    from .c04 import Unreadable, _is_call, _pos_args, _show, helper_value
+
+    _, value = helper_value(tree, ev.qual)
+    alts = alternatives(value)
+    if len(alts) != 1 or not _is_call(alts[0][1], "ArrayAxisSum"):
+        raise AnalysisError(f"{ev.qual}: returns `{_show(value)}`, not one ArrayAxisSum(...)")
+    try:
+        args = _pos_args(alts[0][1], ("array", "axis"))
+    except Unreadable as exc:
+        raise AnalysisError(f"{ev.qual}: {exc}") from exc
+    if len(args) != 2:
+        raise AnalysisError(f"{ev.qual}: `{_show(alts[0][1])}` without an explicit axis")
+    arr, axis = args
+    squared = arr[2] if arr[0] == "binop" and arr[1] == "**" and as_number(arr[3]) == 2 else (arr[1][0] if arr[0] == "mul" and len(arr[1]) == 2 and arr[1][0] == arr[1][1] else None)
+    if squared is None or as_number(axis) is None:
+        raise AnalysisError(f"{ev.qual}: cannot read `{_show(alts[0][1])}` as a sum of squares over an axis")
+    problems = []
+    if not _field_of_self(squared, ev, "vector"):
+        problems.append(f"squares `{_show(squared)}`, not the vector")
+    if as_number(axis) != 1:
+        problems.append(f"sums over axis {as_number(axis)}, not over the components (axis 1)")
+    ctx.verdict(not problems, "R-TERM", f"{cls.qual}.evaluate", tree.loc(ev.node), "EuclideanNormSquared(v) == sum(v**2, axis=1)", problems or None)
     # Phi / Theta
     got = unfolded("Phi", mod=ANG)
     want = te.app("atan2", [C("FourMomentumY", p), C("FourMomentumX", p)])
@@ -198,112 +299,189 @@ def _merge_literals(parts: list[tuple]) -> list[tuple]:
     return out
 
 
-def _stringified_iterable(e: ast.AST) -> ast.AST | None:
-    """X if ``e`` yields ``str(x)`` for every x of X in order: ``map(str, X)``, ``(str(i) for i in X)``,
-    ``[str(i) for i in X]``, ``[f"{i}" for i in X]``."""
-    if isinstance(e, ast.Call) and isinstance(e.func, ast.Name) and e.func.id == "map" and len(e.args) == 2 and not e.keywords \
-            and isinstance(e.args[0], ast.Name) and e.args[0].id == "str":
-        return e.args[1]
-    if isinstance(e, (ast.GeneratorExp, ast.ListComp)) and len(e.generators) == 1:
-        g = e.generators[0]
-        if g.ifs or g.is_async or not isinstance(g.target, ast.Name):
-            return None
-        if string_parts(e.elt) == [("str", g.target.id)]:
-            return g.iter
-    return None
+def text_parts(v) -> list[tuple] | None:
+    """A text VALUE (sa/symex.py normal form: f-string, ``+``, ``str()``, ``format`` and ``join`` over a display are
+    already one ("fstr", parts)) as pieces ("lit", text) | ("join", sep, X, how) for ``sep.join(<str of every x of X>)``
+    with how = "each" (elements stringified one by one, in the order of X) or "sorted-strings" (the strings are
+    sorted) | ("val", value) for str(value).  None if it is not a text of that kind."""
+    from ..symex import is_const
 
-
-def string_parts(e: ast.AST) -> list[tuple] | None:
-    """A str-valued expression as the concatenation it denotes, whatever it is spelled with (f-string,
-    ``+``, ``str()``, ``sep.join`` over ``map(str, X)`` or a comprehension): a list of pieces
-    ("lit", text) | ("str", <source of x>) for str(x) | ("join", sep, <source of X>) for sep.join(str(x) for x in X).
-    None if the expression is not of that kind."""
-    if isinstance(e, ast.Constant) and isinstance(e.value, str):
-        return [("lit", e.value)]
-    if isinstance(e, ast.JoinedStr):
-        parts: list[tuple] = []
-        for v in e.values:
-            if isinstance(v, ast.Constant):
-                parts.append(("lit", str(v.value)))
-            elif isinstance(v, ast.FormattedValue) and v.format_spec is None and v.conversion in (-1, 115):
-                parts += _parts_of_str(v.value)
-            else:
-                return None
-        return _merge_literals(parts)
-    if isinstance(e, ast.BinOp) and isinstance(e.op, ast.Add):
-        left, right = string_parts(e.left), string_parts(e.right)
-        if left is None or right is None:
+    if is_const(v, str):
+        return [("lit", v[1])]
+    if isinstance(v, tuple) and v and v[0] == "binop" and v[1] == "+":
+        left, right = text_parts(v[2]), text_parts(v[3])
+        if left is None or right is None or not any(p_[0] in {"lit", "join"} for p_ in left + right):
             return None
         return _merge_literals(left + right)
-    if isinstance(e, ast.Call) and not e.keywords and len(e.args) == 1:
-        f = e.func
-        if isinstance(f, ast.Attribute) and f.attr == "join" and isinstance(f.value, ast.Constant) and isinstance(f.value.value, str):
-            src = _stringified_iterable(e.args[0])
-            if src is not None:
-                return [("join", f.value.value, unparse(src).replace(" ", ""))]
+    parts = v[1] if isinstance(v, tuple) and v and v[0] == "fstr" else [v]
+    out: list[tuple] = []
+    for x in parts:
+        if isinstance(x, tuple) and x and x[0] == "binop" and x[1] == "+":
+            inner = text_parts(x)
+            if inner is not None:
+                out += inner
+                continue
+        if is_const(x, str, int):
+            out.append(("lit", str(x[1])))
+            continue
+        j = _joined(x)
+        if j is not None:
+            out.append(j)
+            continue
+        if x[0] == "call" and x[1][0] == "attr" and x[1][2] == "join":
             return None
-        if isinstance(f, ast.Name) and f.id == "str":
-            return _parts_of_str(e.args[0])
+        out.append(("val", x))
+    return _merge_literals(out)
+
+
+def _stringified(seq):
+    """X if ``seq`` yields str(x) for every x of X in order (a comprehension / generator / map over X), else None."""
+    if isinstance(seq, tuple) and seq and seq[0] in {"list", "tuple"} and len(seq[1]) == 1 and seq[1][0][0] == "foreach":
+        each, elt = seq[1][0][1], seq[1][0][2]
+        if elt == each or elt == ("call", ("builtin", "str"), (each,), ()) or elt == ("fstr", (each,)):
+            return each[1]
     return None
 
 
-def _parts_of_str(x: ast.AST) -> list[tuple]:
-    """Pieces of ``str(x)`` / ``f"{x}"``: a string expression is its own str()."""
-    inner = string_parts(x)
-    if inner is not None:
-        return inner
-    return [("str", unparse(x).replace(" ", ""))]
+def _joined(x):
+    from ..symex import is_const
+
+    if not (isinstance(x, tuple) and x and x[0] == "call" and x[1][0] == "attr" and x[1][2] == "join" and is_const(x[1][1], str) and len(x[2]) == 1 and not x[3]):
+        return None
+    sep, seq = x[1][1][1], x[2][0]
+    src = _stringified(seq)
+    if src is not None:
+        return ("join", sep, src, "each")
+    if seq[0] == "call" and seq[1] == ("builtin", "sorted") and len(seq[2]) == 1 and not seq[3]:
+        inner = _stringified(seq[2][0])
+        if inner is not None:
+            return ("join", sep, inner, "sorted-strings")
+    return None
 
 
 def check_mass_naming(ctx: Check, tree: Tree) -> None:
-    fn = tree.func(f"{LOR}::get_invariant_mass_symbol")
-    inl = Inliner(fn.node)
-    ret = next(r for r in walk_function(fn.node) if isinstance(r, ast.Return))
-    val = inl.expr(ret.value)
-    txt = unparse(val).replace(" ", "")
-    ok = False
-    if isinstance(val, ast.Call) and tree.resolve(fn.module, val.func, fn) == "sympy.Symbol" and len(val.args) == 1 and len(fn.params) >= 2:
-        topo, state = fn.params[:2]
-        name = string_parts(val.args[0])
-        kw = {k.arg: k.value for k in val.keywords}
-        ok = (name == [("lit", "m_"), ("join", "", f"sorted(determine_attached_final_state({topo},{state}))")]
-              and isinstance(kw.get("nonnegative"), ast.Constant) and kw["nonnegative"].value is True)
-    ctx.verdict(ok, "R-TERM", f"{fn.qual}::name", tree.loc(fn.node),
-                "get_invariant_mass_symbol: name = 'm_' + sorted attached final-state ids of that state, nonnegative", None if ok else txt[:200])
-    cm = tree.func(f"{LOR}::compute_invariant_masses")
-    inl = Inliner(cm.node)
-    stores = [n for n in walk_function(cm.node) if isinstance(n, ast.Assign) and isinstance(n.targets[0], ast.Subscript)]
-    comps = [n for n in walk_function(cm.node) if isinstance(n, ast.DictComp)]
-    if len(stores) + len(comps) != 1:
-        raise AnalysisError("compute_invariant_masses: expected one store (a subscript assignment in a loop or one dict comprehension)")
-    from ..canon import canon, local_names
+    """Naming and filling of the invariant masses, read off the symbolic VALUES (sa/symex.py) of the two functions:
+    temporaries, helpers (wherever they live), ``map`` / comprehension / generator, keyword arguments, a dict
+    comprehension or a loop with stores do not matter."""
+    from ..symex import alternatives, is_const, subterms
+    from .c04 import ATTACHED, Unreadable, _is_call, _method_call, _pos_args, _same_elements, _show, entries_of, helper_value, pooled_sum, read_attached, run_recording
 
-    locs = local_names(cm.node)
-    mapping: dict = {}
-    if stores:
-        st = stores[0]
-        key_e, val_e = st.targets[0].slice, st.value
-        loop = next((a for a in ancestors(st) if isinstance(a, ast.For)), None)
-        loop_iter, loop_target, filtered = (loop.iter, loop.target, any(isinstance(a, ast.If) for a in ancestors(st))) if loop is not None else (None, None, False)
+    fn = tree.func(f"{LOR}::get_invariant_mass_symbol")
+    if len(fn.params) < 2:
+        raise AnalysisError(f"{fn.qual}: no (topology, state) parameters")
+    topo, state = ("param", fn.params[0]), ("param", fn.params[1])
+    _, value = helper_value(tree, fn.qual, frozenset({ATTACHED}))
+    alts = alternatives(value)
+    if len(alts) != 1 or not (_is_call(alts[0][1], "Symbol") and alts[0][1][2]):
+        raise AnalysisError(f"{fn.qual}: returns `{_show(value)}`, not one sympy.Symbol(...)")
+    sym_call = alts[0][1]
+    parts = text_parts(sym_call[2][0])
+    if parts is None:
+        raise AnalysisError(f"{fn.qual}: cannot read the name `{_show(sym_call[2][0])}` as a concatenation of text pieces")
+    problems = []
+    kw = dict(sym_call[3])
+    if kw.get("nonnegative") != ("const", True):
+        if any(not is_const(v) for v in kw.values()):
+            raise AnalysisError(f"{fn.qual}: assumptions of the symbol are not literal: {sorted(kw)}")
+        problems.append(f"assumptions {sorted(kw)}: not nonnegative=True")
+    want_src = ("call", ("global", ATTACHED), (topo, state), ())
+    if len(parts) != 2 or parts[0] != ("lit", "m_") or parts[1][0] != "join":
+        if any(p_[0] == "val" and any(t[0] in {"unknown", "call"} and not _is_call(t, ATTACHED) for t in subterms(p_[1])) for p_ in parts):
+            raise AnalysisError(f"{fn.qual}: the name is built from `{[_show(p_[1]) if p_[0] != 'lit' else p_[1] for p_ in parts]}`: cannot decide")
+        problems.append(f"the name is {[p_[1] if p_[0] == 'lit' else _show(p_[-2] if p_[0] == 'join' else p_[1]) for p_ in parts]}, not 'm_' + the attached final-state ids")
     else:
-        st = comps[0]
-        key_e, val_e = st.key, st.value
-        gen = st.generators[0]
-        loop_iter, loop_target, filtered = gen.iter, gen.target, bool(gen.ifs) or len(st.generators) != 1
-    key = canon(inl.expr(key_e), locs, mapping).replace(" ", "")
-    val = canon(inl.expr(val_e), locs, mapping).replace(" ", "")
-    ok = val == "InvariantMass(ArraySum(*[four_momenta[_1]for_1indetermine_attached_final_state(topology,_0)]))" and key == "get_invariant_mass_symbol(topology,_0)"
-    ctx.verdict(ok, "R-TERM", f"{cm.qual}::store", tree.loc(st),
+        _, sep, src, how = parts[1]
+        if sep != "":
+            problems.append(f"the ids are joined with {sep!r}")
+        if how != "each":
+            problems.append("the ids are sorted AS STRINGS (10 sorts before 2): isomorphic sub-systems get different names")
+        inner = src
+        ordered = False
+        if inner[0] == "call" and inner[1] == ("builtin", "sorted") and len(inner[2]) == 1 and set(dict(inner[3])) <= {"reverse"} \
+                and is_const(dict(inner[3]).get("reverse", ("const", False)), bool):
+            if dict(inner[3]).get("reverse", ("const", False))[1]:
+                problems.append("the ids are listed in DESCENDING order")
+            ordered, inner = True, inner[2][0]
+        while inner[0] == "call" and inner[1][0] == "builtin" and inner[1][1] in {"list", "tuple"} and len(inner[2]) == 1 and not inner[3]:
+            inner = inner[2][0]
+        if _is_call(inner, ATTACHED) and _pos_args(inner, ("topology", "state_id"))[:2] == [topo, state]:
+            pass  # (determine_attached_final_state returns the ids sorted: R-HELPERS)
+        elif _is_call(inner, ATTACHED):
+            problems.append(f"the name lists the final states attached to `{_show(inner)}`, not to the state itself")
+        elif inner[0] == "call" and inner[1][0] == "builtin" and inner[1][1] in {"reversed", "set", "frozenset"} and _is_call(_same_elements(inner), ATTACHED) and not ordered:
+            problems.append(f"the ids are listed in the order of `{_show(inner)}`, not sorted")
+        else:
+            raise AnalysisError(f"{fn.qual}: the name lists `{_show(src)}`: not the attached final-state ids in a form these rules understand")
+    ctx.verdict(not problems, "R-TERM", f"{fn.qual}::name", tree.loc(fn.node),
+                "get_invariant_mass_symbol: name = 'm_' + sorted attached final-state ids of that state, nonnegative", problems or None)
+    # ---- the store(s) of compute_invariant_masses
+    cm = tree.func(f"{LOR}::compute_invariant_masses")
+    sx, value, _st = run_recording(tree, cm, frozenset({ATTACHED, fn.qual, "get_invariant_mass_symbol"}))
+    entries = [e for e in entries_of(sx)]
+    named = [e for e in entries if _is_call(e[1], fn.qual)]
+    if not named or len(named) != len(entries):
+        raise AnalysisError(f"{cm.qual}: expected entries keyed by get_invariant_mass_symbol(...), found {len(named)} of {len(entries)} entries")
+    store_problems: list[str] = []
+    edge_problems: list[str] = []
+    sources = []
+    for pc, key, val, eaches, node in named:
+        try:
+            ktopo, kstate = _pos_args(key, ("topology", "state_id"))[:2]
+        except (Unreadable, ValueError) as exc:
+            raise AnalysisError(f"{cm.qual}: cannot read the arguments of `{_show(key)}`") from exc
+        if not (_is_call(val, "InvariantMass") and len(val[2]) == 1 and not val[3]):
+            raise AnalysisError(f"{cm.qual}: the value `{_show(val)}` is not InvariantMass(<momentum>)")
+        P = val[2][0]
+        pools = {t[1] for t in subterms(P) if t[0] == "sub" and t[1][0] == "param"} | {t[1] for t in subterms(P) if t[0] == "attr" and t[2] in {"__getitem__", "get", "values"} and t[1][0] == "param"}
+        if len(pools) != 1:
+            raise AnalysisError(f"{cm.qual}: cannot tell from which mapping of momenta `{_show(P)}` is built")
+        S = pooled_sum(P, next(iter(pools)))
+        if S is None:
+            raise AnalysisError(f"{cm.qual}: `{_show(P)}` is not an ArraySum over the momenta of a set of states")
+        S = _same_elements(S)
+        if not _is_call(S, ATTACHED):
+            from ..symex import not_followed
+
+            why = not_followed(S, known=(ATTACHED,))
+            if why is not None:
+                raise AnalysisError(f"{cm.qual}: sums the momenta of `{_show(S)}`, which depends on {why}")
+            store_problems.append(f"the mass named after `{_show(kstate)}` sums the momenta of `{_show(S)}`, not of the final states attached to that state")
+        stopo, sstate = _pos_args(S, ("topology", "state_id"))[:2] if _is_call(S, ATTACHED) else (ktopo, kstate)
+        if (stopo, sstate) != (ktopo, kstate):
+            store_problems.append(f"the mass named after `{_show(kstate)}` is computed from the final states attached to `{_show(sstate)}`")
+        # which states are named?
+        x = kstate
+        if x[0] == "item" and x[2] == 0 and x[1][0] == "each" and _method_call(x[1][1], "items") is not None:
+            coll = _method_call(x[1][1], "items")[0]
+        elif x[0] == "each":
+            coll = x[1]
+            if _method_call(coll, "keys") is not None and not _method_call(coll, "keys")[1]:
+                coll = _method_call(coll, "keys")[0]
+            coll = _same_elements(coll)
+        else:
+            raise AnalysisError(f"{cm.qual}: the named state `{_show(x)}` is not the element of a loop / comprehension over edges")
+        if not (coll[0] == "attr" and coll[1] == ktopo):
+            raise AnalysisError(f"{cm.qual}: iterates `{_show(coll)}`, which is not a collection of edges of the topology")
+        sources.append(coll[2])
+        each = x if x[0] == "each" else x[1]
+        filt = [(t, o) for t, o in pc if any(u == each for u in subterms(t))]
+        if filt:
+            raise AnalysisError(f"{cm.qual}: the edges are filtered by `{_show(filt[0][0])}` is {filt[0][1]}: cannot tell whether every edge keeps its mass")
+    first = named[0][4]
+    where = tree.loc(first) if hasattr(first, "lineno") else tree.loc(cm.node)
+    ctx.verdict(not store_problems, "R-TERM", f"{cm.qual}::store", where,
                 "compute_invariant_masses: m_<ids of state> := InvariantMass(sum of the momenta of exactly those ids), for every edge of the topology",
-                None if ok else {"key": key[:120], "value": val[:160]})
-    ok = loop_iter is not None and unparse(loop_iter) in {"topology.edges", "topology.edges.keys()", "topology.edges.items()"} and not filtered
-    ctx.verdict(ok, "R-TERM", f"{cm.qual}::all-edges", tree.loc(st), "compute_invariant_masses iterates all edges of the topology")
+                store_problems or None)
+    if set(sources) != {"edges"} and set(sources) != {"incoming_edge_ids", "intermediate_edge_ids", "outgoing_edge_ids"}:
+        edge_problems.append(f"iterates topology.{', topology.'.join(sorted(set(sources)))}, not all edges of the topology")
+    ctx.verdict(not edge_problems, "R-TERM", f"{cm.qual}::all-edges", where, "compute_invariant_masses iterates all edges of the topology", edge_problems or None)
     # attached final state: the id itself for a final state, else the sorted originating final-state ids
-    da = tree.func("ampform.helicity.decay::determine_attached_final_state")
-    dinl = Inliner(da.node)
-    rets = [unparse(dinl.expr(r.value)).replace(" ", "") for r in walk_function(da.node) if isinstance(r, ast.Return)]
-    ok = rets == ["[state_id]", "sorted(topology.get_originating_final_state_edge_ids(topology.edges[state_id].ending_node_id))"]
-    ctx.verdict(ok, "R-TERM", f"{da.qual}::definition", tree.loc(da.node), "determine_attached_final_state: [id] for a final state, else sorted final-state ids below its ending node", None if ok else rets)
+    da = tree.func(ATTACHED)
+    try:
+        problems, reading = read_attached(tree)
+    except Unreadable as exc:
+        raise AnalysisError(f"R-TERM {da.qual}: cannot decide - {exc}") from exc
+    ctx.verdict(not problems, "R-TERM", f"{da.qual}::definition", tree.loc(da.node), "determine_attached_final_state: [id] for a final state, else sorted final-state ids below its ending node", problems or None)
 
 
 def check_pool(ctx: Check, tree: Tree) -> None:
@@ -315,11 +493,14 @@ def check_pool(ctx: Check, tree: Tree) -> None:
     child's helicity frame."""
     from ..prov import _rd_for
 
-    fn = tree.func(f"{ANG}::compute_helicity_angles.__recursive_helicity_angles")
+    from .c04 import stable_qual, worker_model
+
+    fn = recursion_worker(tree)
     rd = _rd_for(fn, {})
     if not fn.params:
         raise AnalysisError(f"{fn.qual}: no momentum-pool parameter")
-    pool = fn.params[0]
+    pool = worker_model(tree)["pool"]  # the parameter that is used as the momentum pool (found by its use, not by its position)
+    qual = stable_qual(tree, fn)
     pdefs = [d for d in rd.defs if d.kind == "param" and d.name == pool]
     if len(pdefs) != 1:
         raise AnalysisError(f"{fn.qual}: parameter definition of `{pool}` not found")
@@ -345,7 +526,7 @@ def check_pool(ctx: Check, tree: Tree) -> None:
             bad += 1
             d = foreign[0]
             what = unparse(d.node)[:70] if isinstance(d.node, ast.AST) else d.kind
-            ctx.violation("R-POOL", f"{fn.qual}::pool-read-sees::{d.kind}", tree.loc(n),
+            ctx.violation("R-POOL", f"{qual}::pool-read-sees::{d.kind}", tree.loc(n),
                           f"`{n.id}` read here may be the handed-in momentum pool or the result of `{what}` (line {getattr(d.node, 'lineno', '?')})",
                           "the pool of the node being processed is rebound / written inside the loop over its children: the next decaying child is evaluated in its sibling's helicity frame")
     if reads < 2:
@@ -386,10 +567,14 @@ def check_dalitz(ctx: Check, tree: Tree) -> None:
         s, th = items
         atom = te.single_atom(th) if isinstance(th, RF) else None
         info = te.apps.get(atom) if atom is not None else None
-        if info is None or info.cls != "acos":
+        if not isinstance(th, RF):
+            raise AnalysisError(f"{fn.qual}({i}, {j}): the angle `{repr(th)[:100]}` is not a term the evaluator can read")
+        if info is None or info.cls != "acos":  # a term, but not one plain acos(...): e.g. -acos(...), pi - acos(...), asin(...)
             ctx.violation("R-TERM", key + "::acos", tree.loc(fn.node), f"formulate_scattering_angle({i}, {j}) is not acos(...)", repr(th)[:120])
             continue
         got = te.unfold(info.args[0])
+        if not isinstance(got, RF):
+            raise AnalysisError(f"{fn.qual}({i}, {j}): the argument of acos does not reduce to a term the rule can compare ({repr(got)[:100]})")
         k = ({1, 2, 3} - {i, j}).pop()
         m0, mi, mj, mk = sym("m_0"), sym(f"m_{i}"), sym(f"m_{j}"), sym(f"m_{k}")
         sj, sk = sym(f"m_{comp(j)}") ** 2, sym(f"m_{comp(k)}") ** 2
@@ -402,13 +587,170 @@ def check_dalitz(ctx: Check, tree: Tree) -> None:
                     None if ok else {"got": repr(got)[:300], "symbol": repr(s)})
 
 
+# ---------------------------------------------------------------------------------------------
+# R-LITERALID: WHAT is compared with the literal?  A small kind analysis over the reaching definitions:
+#   "id"    a state / edge / node id            "ids"   a sequence or set of ids        "idmap"  a mapping keyed by ids
+#   "pairs" (id, value) pairs (`m.items()`)     "other" anything that is certainly not an id (a count, a spin, a string)
+#   None    unknown
+_ID_FUNCS = {"get_parent_id", "get_sibling_state_id", "get_spectator_id"}
+_IDS_FUNCS = {"determine_attached_final_state", "list_decay_chain_ids", "get_outer_state_ids", "get_decay_product_ids"}
+_IDMAP_ATTRS = {"edges", "nodes", "states", "initial_states", "final_states", "interactions", "initial_state", "final_state"}
+_NOT_ID_BUILTINS = {"len", "sum", "abs", "bool", "float", "str", "repr", "hash", "isinstance", "issubclass", "callable", "round", "divmod", "ord", "any", "all", "type", "id"}
+_KEEP = {"sorted", "list", "tuple", "set", "frozenset", "reversed", "iter"}
+
+
+def _name_kind(name: str) -> str | None:
+    n = name.lower()
+    if n == "id" or n.endswith("_id") or n.endswith("_id1") or n.endswith("_id2"):
+        return "id"
+    if n == "ids" or n.endswith("_ids"):
+        return "ids"
+    return None
+
+
+def _element(kind: str | None) -> str | None:
+    return {"ids": "id", "idmap": "id", "pairs": "pair", "other": "other"}.get(kind) if kind is not None else None
+
+
+def id_kind(tree: Tree, fn, rd, e: ast.AST, depth: int = 0) -> str | None:
+    if depth > 12:
+        return None
+    k = lambda x: id_kind(tree, fn, rd, x, depth + 1)  # noqa: E731
+    if isinstance(e, ast.Constant):
+        return "other"
+    if isinstance(e, (ast.Compare, ast.BoolOp, ast.JoinedStr, ast.Lambda, ast.Dict, ast.DictComp)):
+        return "other" if not isinstance(e, (ast.Dict, ast.DictComp)) else None
+    if isinstance(e, ast.UnaryOp):
+        return "other" if isinstance(e.op, ast.Not) else k(e.operand)
+    if isinstance(e, ast.IfExp):
+        a, b = k(e.body), k(e.orelse)
+        return a if a == b else ("id" if "id" in (a, b) else None)
+    if isinstance(e, ast.NamedExpr):
+        return k(e.value)
+    if isinstance(e, ast.Starred):
+        return k(e.value)
+    if isinstance(e, ast.Name):
+        defs = rd.reaching(e) if isinstance(e.ctx, ast.Load) else set()
+        if not defs:
+            return _name_kind(e.id) if _name_kind(e.id) else None
+        kinds = {_def_kind(tree, fn, rd, d, depth + 1) for d in defs}
+        if len(kinds) == 1:
+            return kinds.pop()
+        return "id" if "id" in kinds else None
+    if isinstance(e, ast.Attribute):
+        if e.attr in _IDMAP_ATTRS:
+            return "idmap"
+        nk = _name_kind(e.attr)
+        return nk if nk is not None else "other"
+    if isinstance(e, ast.Subscript):
+        base = k(e.value)
+        if isinstance(e.slice, ast.Slice):
+            return base if base in {"ids", "other"} else None
+        if base in {"ids"}:
+            return "id"
+        if base == "pair":
+            return "id" if isinstance(e.slice, ast.Constant) and e.slice.value == 0 else "other"
+        if base in {"idmap", "other"}:
+            return "other"
+        return None
+    if isinstance(e, (ast.List, ast.Tuple, ast.Set)):
+        kinds = {k(x) for x in e.elts}
+        if kinds == {"id"}:
+            return "ids"
+        return "other" if "id" not in kinds and None not in kinds else None
+    if isinstance(e, (ast.ListComp, ast.SetComp, ast.GeneratorExp)):
+        elt = k(e.elt)
+        return "ids" if elt == "id" else ("other" if elt == "other" else None)
+    if isinstance(e, ast.BinOp):
+        a, b = k(e.left), k(e.right)
+        if isinstance(e.op, (ast.Sub, ast.BitOr, ast.BitAnd, ast.BitXor, ast.Add)) and "ids" in (a, b):
+            return "ids"
+        if "id" in (a, b):
+            return "id"  # id arithmetic (`state_id % 3 + 1`) still speaks about ids
+        return "other" if a == b == "other" else None
+    if isinstance(e, ast.Call):
+        f = e.func
+        name = f.id if isinstance(f, ast.Name) else (f.attr if isinstance(f, ast.Attribute) else None)
+        q = tree.callee(e, fn)
+        if isinstance(f, ast.Name) and q is None or (q is not None and "::" not in q and "." not in q):
+            if name in _NOT_ID_BUILTINS:
+                return "other"
+            if name in _KEEP and len(e.args) == 1:
+                a = k(e.args[0])
+                return "ids" if a in {"ids", "idmap"} else a
+            if name in {"next", "min", "max"} and e.args:
+                return {"pair": None}.get(_element(k(e.args[0])), _element(k(e.args[0])))
+            if name == "int" and len(e.args) == 1:
+                return k(e.args[0])
+            if name in {"enumerate", "zip", "range", "map", "filter"}:
+                return None
+        if name in _ID_FUNCS:
+            return "id"
+        if name in _IDS_FUNCS:
+            return "ids"
+        if isinstance(f, ast.Attribute):
+            if name in {"keys", "copy"} and not e.args:
+                a = k(f.value)
+                return "ids" if name == "keys" and a == "idmap" else a
+            if name == "items" and not e.args:
+                return "pairs" if k(f.value) == "idmap" else None
+            if name == "values":
+                return "other" if k(f.value) == "idmap" else None
+            if name in {"pop", "get"}:
+                base = k(f.value)
+                return "id" if base == "ids" and name == "pop" else ("other" if base in {"idmap", "other"} else None)
+            if name in {"count", "index", "startswith", "endswith", "is_integer"}:
+                return "other"
+            if name in {"difference", "union", "intersection", "symmetric_difference"}:
+                return "ids" if k(f.value) == "ids" else None
+        if name is not None:
+            nk = _name_kind(name)
+            if nk is not None:
+                return nk
+        if q is not None and q in tree.funcs:
+            return "other"  # a package function whose name does not speak of ids (counts, symbols, expressions, ...)
+        if q is not None and q in tree.classes:
+            return "other"
+        return None
+    return None
+
+
+def _def_kind(tree: Tree, fn, rd, d, depth: int) -> str | None:
+    k = lambda x: id_kind(tree, fn, rd, x, depth + 1)  # noqa: E731
+    if d.kind in {"param", "lambda"}:
+        nk = _name_kind(d.name)
+        return nk if nk is not None else "other"
+    if d.kind in {"for", "comp"}:
+        it = d.node.iter if hasattr(d.node, "iter") else d.value
+        el = _element(k(it)) if it is not None else None
+        if el == "pair":
+            return {0: "id"}.get(d.index, "other") if d.index is not None else "pair"
+        if d.index is not None and el == "id":
+            return None
+        return el
+    if d.kind == "assign" and isinstance(d.value, ast.AST):
+        if d.index is None:
+            return k(d.value)
+        v = k(d.value)
+        if v in {"ids"}:
+            return "id"
+        if v == "pair":
+            return "id" if d.index == 0 else "other"
+        return "other" if v == "other" else None
+    if d.kind in {"import", "def", "with", "except"}:
+        return "other"
+    return None
+
+
 def check_names_structural(ctx: Check, tree: Tree) -> None:
     """R-LITERALID: the name of a kinematic variable is a function of the topology's structure.
     Nothing reachable from the naming / producing functions compares a state, edge or node id with
     an integer literal (qrules numbers the initial state -1 by default, but relabelled topologies -
     the library's own relabel_edge_ids for the DPD alignment, user permutations - use other ids; the
-    initial edge is `topology.incoming_edge_ids`)."""
-    from ..rules import literal_id_comparisons
+    initial edge is `topology.incoming_edge_ids`).  WHAT is compared is decided by a kind analysis over the
+    reaching definitions (``id_kind``): a count of edges (`len(...)`, also through a temporary), a spin or a string
+    compared with a literal is not an id comparison; a value whose kind cannot be determined is "cannot decide"."""
+    from ..dataflow import RD
 
     roots = ["ampform.helicity.naming::get_helicity_angle_symbols", "ampform.helicity.naming::get_boost_chain_suffix",
              f"{LOR}::get_invariant_mass_symbol", f"{ANG}::compute_helicity_angles", f"{LOR}::compute_invariant_masses"]
@@ -419,28 +761,90 @@ def check_names_structural(ctx: Check, tree: Tree) -> None:
             raise AnalysisError(f"vanished anchor: {r}")
         reach |= tree.reachable(r, graph)
     reach = {q for q in reach if q in tree.funcs}
-    hits, _ = literal_id_comparisons(tree, ("ampform.",))
     tops = set()
     for q in reach:
         f = tree.funcs[q]
         while f.outer is not None:
             f = f.outer
         tops.add(f.qual)
-    bad = [h for h in hits if h["fn"].qual in tops]
+    if len(reach) < 8:
+        raise AnalysisError(f"only {len(reach)} functions reachable from the naming / producing functions (call graph degraded)")
+    bad = []
+    unknown = []
+    n = 0
+    cmp_ops = (ast.Eq, ast.NotEq, ast.Is, ast.IsNot, ast.Lt, ast.Gt, ast.LtE, ast.GtE)
+    for q in sorted(tops):
+        top = tree.funcs[q]
+        if not q.startswith("ampform."):
+            continue
+        root_rd = RD(top.node)
+        from ..prov import _rd_for
+
+        cache = {top.qual: root_rd}
+        for node in walk_function(top.node, nested=True):
+            if not (isinstance(node, ast.Compare) and len(node.ops) == 1 and isinstance(node.ops[0], cmp_ops)):
+                continue
+            sides = [node.left, node.comparators[0]]
+            lit = [s_ for s_ in sides if (isinstance(s_, ast.Constant) and isinstance(s_.value, int) and not isinstance(s_.value, bool))
+                   or (isinstance(s_, ast.UnaryOp) and isinstance(s_.op, ast.USub) and isinstance(s_.operand, ast.Constant) and isinstance(s_.operand.value, int))]
+            if len(lit) != 1:
+                continue
+            other = sides[0] if sides[1] is lit[0] else sides[1]
+            n += 1
+            owner = tree.func_of(node) or top
+            rd = _rd_for(owner, cache)
+            kind = id_kind(tree, owner, rd, other)
+            if kind == "id":
+                bad.append({"fn": top, "node": node, "literal": unparse(lit[0])})
+            elif kind is None:
+                unknown.append(f"{top.qual}: `{unparse(node)[:60]}`")
     for h in bad:
         ctx.violation("R-LITERALID", f"{h['fn'].qual}::{canon_cmp(h['node'])}", tree.loc(h["node"]),
                       f"{h['fn'].qual}: `{unparse(h['node'])}` compares an id with the literal {h['literal']} on the path that names / computes kinematic variables",
                       "for a relabelled topology (initial state not -1) the names differ from the documented ones and no longer describe the quantity that is computed")
-    if len(reach) < 8:
-        raise AnalysisError(f"only {len(reach)} functions reachable from the naming / producing functions (call graph degraded)")
+    if unknown:
+        raise AnalysisError("R-LITERALID cannot decide whether an id is compared with a literal in " + "; ".join(unknown[:4]))
     if not bad:
-        ctx.ok("R-LITERALID", "src/ampform/helicity/naming.py", f"{len(reach)} functions reachable from the naming and producing functions of kinematic variables: no comparison of an id with an integer literal")
+        ctx.ok("R-LITERALID", "src/ampform/helicity/naming.py", f"{len(reach)} functions reachable from the naming and producing functions of kinematic variables: "
+               f"none of their {n} comparisons with an integer literal compares an id")
 
 
 def canon_cmp(node: ast.AST) -> str:
     import re
 
     return re.sub(r"\s+", "", unparse(node))[:60]
+
+
+def _resets_memo(tree: Tree, cls, method, memo: str, depth: int = 0, seen: set | None = None) -> bool:
+    """Does ``method`` (or a method of the same object it calls, transitively) write / delete / clear ``self.<memo>``?
+    `self.A = ...`, `del self.A`, `self.A.clear()`, `setattr(self, "A", ...)`, `self.__dict__.pop("A", ...)`."""
+    seen = seen if seen is not None else set()
+    if method.qual in seen or depth > 3:
+        return False
+    seen.add(method.qual)
+    me = method.params[0] if method.params else "self"
+
+    def is_memo(n) -> bool:
+        return isinstance(n, ast.Attribute) and isinstance(n.value, ast.Name) and n.value.id == me and n.attr == memo
+
+    for node in walk_function(method.node):
+        if isinstance(node, (ast.Assign, ast.AnnAssign, ast.AugAssign)):
+            targets = node.targets if isinstance(node, ast.Assign) else [node.target]
+            if any(is_memo(t) or (isinstance(t, (ast.Tuple, ast.List)) and any(is_memo(e) for e in t.elts)) for t in targets):
+                return True
+        elif isinstance(node, ast.Delete) and any(is_memo(t) for t in node.targets):
+            return True
+        elif isinstance(node, ast.Call):
+            f = node.func
+            if isinstance(f, ast.Attribute) and f.attr in {"clear", "pop", "popitem"} and is_memo(f.value):
+                return True
+            if isinstance(f, ast.Name) and f.id in {"setattr", "delattr"} and len(node.args) >= 2 and isinstance(node.args[0], ast.Name) and node.args[0].id == me \
+                    and isinstance(node.args[1], ast.Constant) and str(node.args[1].value).endswith(memo.lstrip("_")):
+                return True
+            if isinstance(f, ast.Attribute) and isinstance(f.value, ast.Name) and f.value.id == me and f.attr in cls.methods:
+                if _resets_memo(tree, cls, cls.methods[f.attr], memo, depth + 1, seen):
+                    return True
+    return False
 
 
 def check_adapter_memo(ctx: Check, tree: Tree) -> None:
@@ -458,71 +862,308 @@ def check_adapter_memo(ctx: Check, tree: Tree) -> None:
         ctx.ok("R-MEMO", tree.loc(tree.classes[cls_q].node), "HelicityAdapter keeps no lazily computed attribute: create_expressions() always reflects the registered topologies")
         return
     for r in rows:
+        r["resets"] = r["resets"] or _resets_memo(tree, tree.classes[cls_q], r["writer"], r["memo"])
         ctx.verdict(r["resets"], "R-MEMO", f"{r['writer'].qual}::stale `{r['memo']}`", tree.loc(r["writer"].node),
                     f"{r['writer'].qual} changes {r['touched']} and resets the memo `{r['memo']}` computed in {r['computed_in'].name}",
                     None if r["resets"] else f"`{r['memo']}` is derived from {r['touched']} but survives this change: later calls of {r['computed_in'].name}() miss the variables of the new topologies")
 
 
+def _quantified(test, outcome):
+    """("all" | "some", each, element test in positive normal form, its outcome) for `all(E for x in X)` / `any(...)`
+    with this outcome: all(E) is True = for all x: E; any(E) is False = for all x: not E; the other two are "some"."""
+    from ..symex import normal, strip_when
+
+    if not (isinstance(test, tuple) and test and test[0] == "call" and test[1] in {("builtin", "all"), ("builtin", "any")} and len(test[2]) == 1 and not test[3]):
+        return None
+    seq = test[2][0]
+    if seq[0] not in {"list", "tuple", "set"} or len(seq[1]) != 1 or seq[1][0][0] != "foreach":
+        return None
+    each, elt = seq[1][0][1], seq[1][0][2]
+    if strip_when(elt)[0]:
+        return None
+    atom, pos = normal(elt)
+    if test[1][1] == "all":
+        return ("all" if outcome else "some", each, atom, pos if outcome else not pos)
+    return ("some" if outcome else "all", each, atom, pos if outcome else not pos)
+
+
+def _children_of(v, model) -> bool:
+    """``v`` (through sorted / list / tuple) is topology.get_edge_ids_outgoing_from_node(<the node parameter>)."""
+    from .c04 import _edges_at
+
+    e = _edges_at(v, "get_edge_ids_outgoing_from_node")
+    return e is not None and e[1] == ("param", model["node"])
+
+
+def _accumulator_kind(tree: Tree, fn, rd, names: set[str]) -> dict[str, str]:
+    """How is each mapping that receives the named entries bound inside the recursion?  "local" (created in every
+    activation), "closure" (a variable of an enclosing function: one object for all activations), "param"."""
+    out = {}
+    own = {d.name: d for d in rd.defs if d.kind == "param"}
+    assigned = {n.id for n in walk_function(fn.node, nested=False) if isinstance(n, ast.Name) and isinstance(n.ctx, ast.Store)}
+    for name in names:
+        if name in own:
+            out[name] = "param"
+        elif name in assigned:
+            out[name] = "local"
+        else:
+            out[name] = "closure"
+    return out
+
+
 def check_recursion_shape(ctx: Check, tree: Tree) -> None:
     """R-RECURSE: the angle dictionary of a node is the union of its own angle pairs and the
-    dictionaries of all decaying children: (1) the value of every recursive call is merged into the
-    returned mapping; (2) a child is descended into iff it decays further (ending_node_id is not
-    None) and has more than one final state below it; (3) the two-final-state leaf is recognised by
-    `ending_node_id is None` for all children."""
-    from ..prov import _rd_for
+    dictionaries of all decaying children: (1) what the recursion registers for the sub-tree ends up in the
+    returned mapping - the value of every recursive call is merged into it, or all activations write into ONE
+    mapping (a variable of the enclosing function, or an accumulator parameter that is handed down) that is
+    returned; (2) a child is descended into iff it decays further (ending_node_id is not None / more than one
+    final state below it); (3) the leaf case applies iff ALL children of the node are final states.
+    (2) and (3) are read off the path conditions of the symbolic model of the recursion (sa/symex.py)."""
+    from ..prov import _rd_for, stores_through_helpers
+    from .c04 import ATTACHED, Unreadable, _edge_attr, _is_call, _none_test, _pos_args, _same_elements, _show, stable_qual, worker_model
 
-    fn = tree.func(f"{ANG}::compute_helicity_angles.__recursive_helicity_angles")
-    rd = _rd_for(fn, {})
-    rec = [c for c in walk_function(fn.node) if isinstance(c, ast.Call) and isinstance(c.func, ast.Name) and c.func.id == fn.name]
+    fn = recursion_worker(tree)
+    qual = stable_qual(tree, fn)
+    cache: dict = {}
+    rd = _rd_for(fn, cache)
+    model = worker_model(tree)
+    rec = [c for c in walk_function(fn.node) if isinstance(c, ast.Call) and tree.callee(c, tree.func_of(c) or fn) == fn.qual]
     if not rec:
         raise AnalysisError(f"{fn.qual}: no recursive call")
-    returned = set()
+    # ---- (1) where do the entries of the sub-tree go?
+    acc_names = {s_.target.id for s_ in stores_through_helpers(tree, fn, cache) if isinstance(s_.target, ast.Name) and (s_.origin is None or s_.origin is fn)}
+    kinds = _accumulator_kind(tree, fn, rd, acc_names)
+    returned: set[str] = set()
     for ret, _ in rd.returns:
         if ret.value is not None:
             returned |= {n.id for n in ast.walk(ret.value) if isinstance(n, ast.Name)}
     for c in rec:
-        merged = False
+        merged: bool | None = None  # None: cannot tell
+        why = None
         par = getattr(c, "_parent", None)
-        # direct: R.update(rec(...)) / return {**R, **rec(...)}
+        # direct: R.update(rec(...)) / return {**R, **rec(...)} / R |= rec(...)
         for a in ancestors(c):
-            if isinstance(a, ast.Call) and isinstance(a.func, ast.Attribute) and a.func.attr == "update" and isinstance(a.func.value, ast.Name) and a.func.value.id in returned:
+            if isinstance(a, ast.Call) and isinstance(a.func, ast.Attribute) and a.func.attr == "update" and isinstance(a.func.value, ast.Name) and a.func.value.id in returned | acc_names:
                 merged = True
-            if isinstance(a, ast.Return):
+            if isinstance(a, (ast.Return, ast.Yield, ast.YieldFrom)):
                 merged = True
-        # via a local: x = rec(...); R.update(x)
-        for d in rd.defs:
-            if d.value is c:
-                for node in walk_function(fn.node):
-                    if isinstance(node, ast.Call) and isinstance(node.func, ast.Attribute) and node.func.attr == "update" and isinstance(node.func.value, ast.Name) and node.func.value.id in returned:
-                        if any(isinstance(n, ast.Name) and d in rd.reaching(n) for a_ in node.args for n in ast.walk(a_)):
-                            merged = True
-                    if isinstance(node, ast.AugAssign) and isinstance(node.op, ast.BitOr) and isinstance(node.target, ast.Name) and node.target.id in returned:
-                        if any(isinstance(n, ast.Name) and d in rd.reaching(n) for n in ast.walk(node.value)):
-                            merged = True
-        ctx.verdict(merged, "R-RECURSE", f"{fn.qual}::recursive-result-merged", tree.loc(c),
-                    "the angles of the sub-tree (value of the recursive call) are merged into the returned mapping",
-                    None if merged else "the result of the recursion is dropped: angles below this node are never defined")
-        # (2) guards of the descent
-        guards = [a for a in ancestors(c) if isinstance(a, ast.If)]
-        gtxt = [unparse(g.test).replace(" ", "") for g in guards]
-        decays = any(t.endswith(".ending_node_idisnotNone") for t in gtxt)
-        many = any(t.startswith("len(") and t.endswith(")>1") for t in gtxt) or any(t.startswith("len(") and t.endswith(")>=2") for t in gtxt)
-        extra = [unparse(g.test) for g, t in zip(guards, gtxt) if not (t.endswith(".ending_node_idisnotNone") or (t.startswith("len(") and (t.endswith(")>1") or t.endswith(")>=2"))))]
-        ok = decays and not extra
-        ctx.verdict(ok, "R-RECURSE", f"{fn.qual}::descent-guard", tree.loc(c),
-                    "a child is descended into iff it decays further (`ending_node_id is not None`" + (", more than one final state below it" if many else "") + ")",
-                    None if ok else {"guards": [unparse(g.test) for g in guards]})
-    # (3) leaf recognition
-    leaf = [n for n in walk_function(fn.node) if isinstance(n, ast.If) and isinstance(n.test, ast.Call) and unparse(n.test.func) == "all"]
-    ok = False
-    if len(leaf) == 1 and leaf[0].test.args and isinstance(leaf[0].test.args[0], ast.GeneratorExp):
-        g = leaf[0].test.args[0]
-        t = unparse(g.elt).replace(" ", "")
-        it = g.generators[0].iter
-        over_children = any(d.value is not None and "get_edge_ids_outgoing_from_node" in unparse(d.value) for d in rd.closure(rd.uses(it)))
-        ok = t.endswith(".ending_node_idisNone") and over_children and not g.generators[0].ifs
-    ctx.verdict(ok, "R-RECURSE", f"{fn.qual}::leaf-test", tree.loc(leaf[0]) if leaf else tree.loc(fn.node),
-                "the leaf case (own angle pair from the pooled momentum of the helicity state) applies iff ALL children of the node are final states")
+            if isinstance(a, ast.AugAssign) and isinstance(a.op, ast.BitOr) and isinstance(a.target, ast.Name) and a.target.id in returned | acc_names:
+                merged = True
+            if isinstance(a, (ast.FunctionDef, ast.AsyncFunctionDef, ast.Lambda)):
+                break
+        # via a local: x = rec(...); R.update(x) / R |= x / {**R, **x} returned / for k, v in x.items(): R[k] = v
+        defs_of_c = [d for d in rd.defs if d.value is c and d.kind == "assign"]
+        if merged is None and defs_of_c:
+            used = False
+            for node in walk_function(fn.node):
+                reads = lambda e: any(isinstance(n, ast.Name) and isinstance(n.ctx, ast.Load) and any(d in rd.reaching(n) for d in defs_of_c) for n in ast.walk(e))  # noqa: E731
+                if isinstance(node, ast.Call) and isinstance(node.func, ast.Attribute) and node.func.attr == "update" and isinstance(node.func.value, ast.Name) and node.func.value.id in returned | acc_names:
+                    if any(reads(a_) for a_ in node.args):
+                        merged = True
+                elif isinstance(node, ast.AugAssign) and isinstance(node.op, ast.BitOr) and isinstance(node.target, ast.Name) and node.target.id in returned | acc_names:
+                    if reads(node.value):
+                        merged = True
+                elif isinstance(node, ast.Return) and node.value is not None and reads(node.value):
+                    merged = True
+                elif isinstance(node, (ast.Assign, ast.AnnAssign)) and node.value is not None and any(isinstance(t, ast.Name) and t.id in returned | acc_names
+                                                                                                       for t in (node.targets if isinstance(node, ast.Assign) else [node.target])):
+                    v_ = node.value  # R = {**R, **x}  /  R = R | x  /  R = dict(R, **x)
+                    if (isinstance(v_, ast.Dict) and any(k_ is None and reads(x_) for k_, x_ in zip(v_.keys, v_.values))) \
+                            or (isinstance(v_, ast.BinOp) and isinstance(v_.op, ast.BitOr) and (reads(v_.left) or reads(v_.right))):
+                        merged = True
+                elif isinstance(node, ast.For) and reads(node.iter) and any(isinstance(t, ast.Assign) and isinstance(t.targets[0], ast.Subscript) and isinstance(t.targets[0].value, ast.Name)
+                                                                         and t.targets[0].value.id in returned | acc_names for t in ast.walk(node)):
+                    merged = True
+                elif isinstance(node, ast.Name) and isinstance(node.ctx, ast.Load) and any(d in rd.reaching(node) for d in defs_of_c):
+                    used = True
+            if merged is None and not used:
+                merged, why = False, "the result of the recursion is bound to a name that is never read"
+            elif merged is None:
+                raise AnalysisError(f"{fn.qual}: the value of the recursive call `{unparse(c)[:60]}` is used in a way these rules cannot follow")
+        if merged is None and isinstance(par, ast.Expr):
+            # the value is discarded: fine iff every activation writes into one and the same mapping
+            if not acc_names:
+                raise AnalysisError(f"{fn.qual}: the value of the recursive call is discarded and no mapping that receives the named entries was found")
+            callee_args = None
+            problems = []
+            for name in sorted(acc_names):
+                k = kinds[name]
+                if k == "local":
+                    problems.append(f"`{name}` is created anew in every activation")
+                elif k == "param":
+                    from ..prov import bind_call
+
+                    callee_args = callee_args or bind_call(fn, c)
+                    arg = (callee_args or {}).get(name)
+                    if arg is None:
+                        raise AnalysisError(f"{fn.qual}: cannot bind the arguments of `{unparse(c)[:60]}` to tell whether the accumulator `{name}` is handed down")
+                    # (entries written into the parameter are weak updates of the same object: `store` definitions)
+                    if not (isinstance(arg, ast.Name) and arg.id == name and all(d.kind in {"param", "store"} and d.name == name for d in rd.reaching(arg)) and rd.reaching(arg)):
+                        problems.append(f"the accumulator parameter `{name}` is not handed down to the recursion (it receives `{unparse(arg)[:40]}`)")
+            merged = not problems
+            why = "; ".join(problems) or None
+            if merged:
+                _shared_accumulator_returned(tree, fn, acc_names, kinds)
+        if merged is None:
+            raise AnalysisError(f"{fn.qual}: cannot tell what happens to the value of the recursive call `{unparse(c)[:60]}`")
+        ctx.verdict(merged, "R-RECURSE", f"{qual}::recursive-result-merged", tree.loc(c),
+                    "the angles of the sub-tree end up in the returned mapping (the value of the recursive call is merged, or all activations fill one mapping)",
+                    None if merged else f"the result of the recursion is dropped: angles below this node are never defined ({why})")
+    # ---- (2) guards of the descent, from the path condition of every recursive call of the model
+    if not model["calls"]:
+        raise AnalysisError(f"{fn.qual}: the symbolic model has no recursive call")
+    for pc, bound, callv, node in model["calls"]:
+        pc = _split_conjunctions(pc)
+        ea = _edge_attr(bound[model["node"]])
+        if ea is None:
+            raise AnalysisError(f"{fn.qual}: the recursion continues at `{_show(bound[model['node']])}`, which is not a node of a child edge")
+        topo, child, _attr = ea
+        decays = None
+        problems = []
+        shown = []
+        for t, outcome in pc:
+            subj = _none_test(t)
+            e2 = _edge_attr(subj) if subj is not None else None
+            if e2 is not None and e2[1] == child and e2[2] == "ending_node_id":
+                shown.append(f"child.ending_node_id is {'None' if outcome else 'not None'}")
+                if outcome:
+                    problems.append("the recursion is entered for children WITHOUT an ending node (final states)")
+                decays = not outcome if decays is None else decays
+                continue
+            n_attached = _count_test(t, outcome, lambda x: _is_call(_same_elements(x), ATTACHED) and _pos_args(_same_elements(x), ("topology", "state_id"))[1:2] == [child])
+            if n_attached is not None:
+                shown.append(f"number of final states below the child {n_attached}")
+                if n_attached == "<=1":
+                    problems.append("the recursion is entered only for children with at most one final state below them")
+                else:
+                    decays = True if decays is None else decays
+                continue
+            q_ = _quantified(t, outcome)
+            if q_ is not None and _none_test(q_[2]) is not None and _edge_attr(_none_test(q_[2])) is not None and _edge_attr(_none_test(q_[2]))[2] == "ending_node_id":
+                shown.append("after the leaf case")  # (a leaf case that returns early: which children are final is tested again per child)
+                continue
+            raise AnalysisError(f"{fn.qual}: the descent is guarded by `{_show(t)}` is {outcome}: not a test these rules understand")
+        if decays is None and not problems:
+            raise AnalysisError(f"{fn.qual}: no guard `ending_node_id is not None` (or more than one final state) found on the path to the recursive call")
+        # "iff": no path on which this child is known to decay further leaves the iteration / the activation before the call
+        from ..symex import subterms
+
+        for kind, epc, enode in model["exits"]:
+            epc = _split_conjunctions(epc)
+            about_child = [(t, o) for t, o in epc if any(x == child for x in subterms(t))]
+            if not about_child or (hasattr(enode, "lineno") and node is not None and hasattr(node, "lineno") and enode.lineno > node.lineno):
+                continue
+            says = None
+            for t, o in about_child:
+                subj = _none_test(t)
+                e2 = _edge_attr(subj) if subj is not None else None
+                if e2 is not None and e2[1] == child and e2[2] == "ending_node_id":
+                    says = (not o) if says is None or says else says
+                n_att = _count_test(t, o, lambda x: _is_call(_same_elements(x), ATTACHED) and _pos_args(_same_elements(x), ("topology", "state_id"))[1:2] == [child])
+                if n_att == "<=1":
+                    says = False
+            extra = [f"{_show(t)} is {o}" for t, o in about_child if _none_test(t) is None and _count_test(t, o, lambda x: True) is None]
+            if says is True:
+                problems.append(f"a child that decays further is skipped (`{kind}` at line {getattr(enode, 'lineno', '?')}) when " + (" and ".join(extra) or "the guards hold")
+                                + ": its sub-decay angles are never defined")
+            elif says is None:
+                raise AnalysisError(f"{fn.qual}: `{kind}` at line {getattr(enode, 'lineno', '?')} leaves the iteration for a child under {extra}: cannot tell whether decaying children are skipped")
+        where = tree.loc(node) if node is not None and hasattr(node, "lineno") else tree.loc(rec[0])
+        ctx.verdict(not problems, "R-RECURSE", f"{qual}::descent-guard", where,
+                    "a child is descended into iff it decays further (" + ", ".join(shown) + ")", problems or None)
+    # ---- (3) leaf recognition: the entries that read ONE pooled momentum directly are written iff all children are final
+    pool = ("param", model["pool"])
+    leaf = [st for st in model["stores"] if any(_is_call(st[2], n) for n in ("Phi", "Theta")) and st[2][2] and st[2][2][0][0] == "sub" and st[2][2][0][1] == pool]
+    if not leaf:
+        raise AnalysisError(f"{fn.qual}: no angle entry that is computed directly from one pooled momentum (the leaf case) was found")
+    problems = []
+    for pc, _key, _val, _eaches, node in leaf:
+        quant = [(q, t, o) for t, o in pc for q in [_quantified(t, o)] if q is not None]
+        others = [(t, o) for t, o in pc if _quantified(t, o) is None and not _is_call(t, "is_opposite_helicity_state")]
+        if others:
+            raise AnalysisError(f"{fn.qual}: the leaf entries are written under `{_show(others[0][0])}` is {others[0][1]}: not a test these rules understand")
+        if len(quant) != 1:
+            raise AnalysisError(f"{fn.qual}: the leaf entries are written under {len(quant)} all()/any() conditions (one expected)")
+        kind, each, atom, pos = quant[0][0]
+        subj = _none_test(atom)
+        e2 = _edge_attr(subj) if subj is not None else None
+        if e2 is None or e2[1] != each or not _children_of(each[1], model):
+            raise AnalysisError(f"{fn.qual}: the leaf condition quantifies `{_show(atom)}` over `{_show(each[1])}`: not `edges[child].<node> is None` over the children of the node")
+        if e2[2] != "ending_node_id":
+            problems.append(f"the leaf case looks at `{e2[2]}` of the children")
+        if kind != "all":
+            problems.append("the leaf case applies as soon as SOME child is a final state")
+        if not pos:
+            problems.append("the leaf case applies when the children are NOT final states")
+    where = tree.loc(leaf[0][4]) if hasattr(leaf[0][4], "lineno") else tree.loc(fn.node)
+    ctx.verdict(not problems, "R-RECURSE", f"{qual}::leaf-test", where,
+                "the leaf case (own angle pair from the pooled momentum of the helicity state) applies iff ALL children of the node are final states",
+                sorted(set(problems)) or None)
+
+
+def _split_conjunctions(pc) -> tuple:
+    """(a and b) is True = a is True, b is True; (a or b) is False = a is False, b is False (tests in positive normal form)."""
+    from ..symex import normal
+
+    out = []
+    for t, o in pc:
+        if isinstance(t, tuple) and t and ((t[0] == "and" and o) or (t[0] == "or" and not o)):
+            for x in t[1]:
+                a, pos = normal(x)
+                out += list(_split_conjunctions(((a, o if pos else not o),)))
+        else:
+            out.append((t, o))
+    return tuple(out)
+
+
+def _count_test(t, outcome: bool, is_subject):
+    """">1" / "<=1" if the test (with this outcome) says that len(subject) is more than one / at most one; None otherwise."""
+    from ..symex import is_const
+
+    if not (isinstance(t, tuple) and t and t[0] == "cmp"):
+        return None
+    op, a, b = t[1], t[2], t[3]
+    mirror = {"<": ">", ">": "<", "<=": ">=", ">=": "<=", "==": "=="}
+    if is_const(a, int) and op in mirror:
+        a, b, op = b, a, mirror[op]
+    if not (isinstance(a, tuple) and a[0] == "call" and a[1] == ("builtin", "len") and len(a[2]) == 1 and is_subject(a[2][0]) and is_const(b, int)):
+        return None
+    k = b[1]
+    more = {(">", 1): True, (">=", 2): True, ("<=", 1): False, ("<", 2): False, ("==", 1): False}.get((op, k))
+    if more is None:
+        return None
+    return ">1" if more == outcome else "<=1"
+
+
+def _shared_accumulator_returned(tree: Tree, fn, acc_names: set[str], kinds: dict[str, str]) -> None:
+    """With one mapping shared by all activations: the enclosing producer must hand that mapping out.  Fails closed
+    (AnalysisError) if that cannot be confirmed."""
+    from ..dataflow import RD
+    from ..prov import bind_call
+
+    top = fn
+    while top.outer is not None:
+        top = top.outer
+    producer = tree.func(f"{ANG}::compute_helicity_angles")
+    rd = RD(producer.node)
+    returned = set()
+    for ret, defs in rd.returns:
+        if ret.value is not None:
+            returned |= {d.name for d in rd.closure(defs)}
+    for name in acc_names:
+        if kinds[name] == "closure":
+            if name not in returned:
+                raise AnalysisError(f"{producer.qual}: the recursion fills the enclosing mapping `{name}`, but that mapping does not reach the returned value")
+        elif kinds[name] == "param":
+            ok = False
+            for call, q in tree.calls_in(producer, nested=False):
+                if q == fn.qual:
+                    bound = bind_call(fn, call) or {}
+                    arg = bound.get(name)
+                    if isinstance(arg, ast.Name) and arg.id in returned:
+                        ok = True
+            if not ok:
+                raise AnalysisError(f"{producer.qual}: cannot confirm that the accumulator handed to {fn.name}() as `{name}` is what is returned")
 
 
 def run(ctx: Check, tree: Tree) -> None:
